@@ -1,6 +1,7 @@
 mod bits;
 mod c02;
 mod c03;
+mod c05;
 mod c07;
 mod common;
 mod cprref;
@@ -28,6 +29,7 @@ fn main() {
         "C02" => c02::run(tier),
         "C03" => c03::run(tier),
         "C04" => fields::c04(tier),
+        "C05" => c05::run(tier),
         "C06" => fields::generic(tier, "C06", &[6]),
         "C07" => c07::run(tier),
         "C08" => fields::generic(tier, "C08", &[8]),
